@@ -173,6 +173,141 @@ def check_obligations(pid):
 
 
 # ------------------------------------------------------------------------------------------------
+# Translation tie: /repo sources -> Gallina syntax trees (translator/rs2v) -> tie theorems and pins
+# ------------------------------------------------------------------------------------------------
+GEN = os.path.join(WORK, "gen")
+TIEOUT = os.path.join(WORK, "tie")
+TRANSLATOR = os.path.join(VERIF, "translator")
+CRATES = ["cbc", "pcbc", "ige", "cfb_mode", "cfb8", "ofb", "ctr", "belt_ctr", "cts"]
+
+
+def sha(*parts):
+    h = hashlib.sha256()
+    for p in parts:
+        h.update(p if isinstance(p, bytes) else p.encode())
+    return h.hexdigest()
+
+
+def translate():
+    """Build rs2v (cached by cargo) and translate /repo's current working tree into WORK/gen/Src_<crate>.v."""
+    with Lock("cargo"):
+        env = dict(ENV, CARGO_TARGET_DIR=os.path.join(WORK, "target_tr"))
+        p = run(["cargo", "build", "--offline", "--quiet"], cwd=TRANSLATOR, timeout=1200, env=env, check=False)
+        if p.returncode != 0:
+            raise BuildError("translator build failed:\n" + p.stdout[-3000:])
+    exe = os.path.join(WORK, "target_tr", "debug", "rs2v")
+    with Lock("gen"):
+        tmp = GEN + ".new"
+        shutil.rmtree(tmp, ignore_errors=True)
+        p = run([exe, REPO, tmp], check=False, timeout=300)
+        if p.returncode != 0:
+            raise BuildError("rs2v failed on %s:\n%s" % (REPO, p.stdout[-3000:]))
+        os.makedirs(GEN, exist_ok=True)
+        for f in os.listdir(tmp):
+            a, b = os.path.join(tmp, f), os.path.join(GEN, f)
+            if not (os.path.exists(b) and open(a, "rb").read() == open(b, "rb").read()):
+                shutil.copy(a, b)           # keep mtimes (and compiled .vo) of unchanged files
+        shutil.rmtree(tmp, ignore_errors=True)
+    return GEN
+
+
+def tie_units(crates, kind):
+    """unit = (crate, file stem under coq/Tie)"""
+    out = []
+    for c in crates:
+        if kind == "core":
+            if os.path.exists(os.path.join(COQ, "Tie", "Tie_%s.v" % c)):
+                out.append((c, "Tie_%s" % c))
+            out.append((c, "Pins_%s_core" % c))
+        else:
+            out.append((c, "Pins_%s_aux" % c))
+    return out
+
+
+def _coq_dep_stamp():
+    h = hashlib.sha256()
+    for f in ("Mir.vo", "MirSem.vo", "MirLemmas.vo", "BlockModes.vo", os.path.join("Tie", "TieLib.vo")):
+        pth = os.path.join(COQ, f)
+        h.update(open(pth, "rb").read() if os.path.exists(pth) else b"missing")
+    return h.hexdigest()
+
+
+def changed_functions(crate):
+    """names of the functions of a crate whose source text differs from the golden translation"""
+    try:
+        old = json.load(open(os.path.join(COQ, "Tie", "golden", "manifest.json")))
+        new = json.load(open(os.path.join(GEN, "manifest.json")))
+    except Exception:
+        return []
+    pre = crate + "__"
+    names = sorted(k for k in set(old) | set(new) if k.startswith(pre) and old.get(k) != new.get(k))
+    return names
+
+
+def check_ties(units):
+    """Compile the generated Src_<crate>.v and the tie / pin files against it.  Results are cached on the
+    content of everything they depend on.  Returns dict(units=[...], lemmas=int, problems=[...])."""
+    res = dict(units=[], lemmas=0, problems=[], changed={})
+    if not units:
+        return res
+    translate()
+    os.makedirs(TIEOUT, exist_ok=True)
+    stamp = _coq_dep_stamp()
+    import concurrent.futures
+
+    def one(unit):
+        crate, stem = unit
+        src = os.path.join(GEN, "Src_%s.v" % crate)
+        tie = os.path.join(COQ, "Tie", stem + ".v")
+        if not os.path.exists(tie):
+            return unit, False, "%s.v missing" % stem, 0
+        key = sha(open(src, "rb").read(), open(tie, "rb").read(), stamp)
+        cache = os.path.join(TIEOUT, "%s.%s" % (stem, key[:24]))
+        nlem = len(re.findall(r"^\s*(?:Lemma|Theorem|Example)\s+\w+", strip_comments(open(tie).read()), re.M))
+        if os.path.exists(cache):
+            txt = open(cache).read()
+            return unit, txt.startswith("ok"), txt[3:], nlem
+        with Lock("tie_" + crate):
+            vo = src[:-2] + ".vo"
+            if not (os.path.exists(vo) and os.path.getmtime(vo) >= os.path.getmtime(src)):
+                p = run(["timeout", "300", "coqc", "-Q", COQ, "BM", "-Q", GEN, "BMGen", src], check=False)
+                if p.returncode != 0:
+                    return unit, False, "generated %s does not compile: %s" % (os.path.basename(src), p.stdout[-800:]), nlem
+        p = run(["timeout", "900", "coqc", "-Q", COQ, "BM", "-Q", GEN, "BMGen", "-o", os.path.join(TIEOUT, stem + ".vo"), tie],
+                check=False, timeout=1000)
+        ok = p.returncode == 0
+        msg = "" if ok else p.stdout[-1200:]
+        open(cache, "w").write(("ok " if ok else "no ") + msg)
+        return unit, ok, msg, nlem
+
+    with Lock("ties"):
+        with concurrent.futures.ThreadPoolExecutor(max_workers=12) as ex:
+            results = list(ex.map(one, units))
+    for (crate, stem), ok, msg, nlem in results:
+        res["units"].append(dict(unit=stem, crate=crate, ok=ok, lemmas=nlem))
+        if ok:
+            res["lemmas"] += nlem
+        else:
+            ch = changed_functions(crate)
+            res["changed"][crate] = ch
+            m = re.search(r'File "[^"]*", line (\d+)', msg)
+            where = ""
+            if m:
+                lines = open(os.path.join(COQ, "Tie", stem + ".v")).read().split("\n")
+                ln = int(m.group(1))
+                for k in range(min(ln, len(lines)) - 1, -1, -1):
+                    mm = re.match(r"\s*(?:Lemma|Theorem|Example)\s+(\w+)", lines[k])
+                    if mm:
+                        where = mm.group(1)
+                        break
+            res["problems"].append("tie %s (coq/Tie/%s.v%s) no longer checks against the translation of /repo; "
+                                   "functions whose source changed since the model was validated: %s; coqc: %s"
+                                   % (stem, stem, (", first failing statement `%s`" % where) if where else "",
+                                      ", ".join(ch) or "none (structure tables only)", " ".join(msg.split())[:400]))
+    return res
+
+
+# ------------------------------------------------------------------------------------------------
 # Rust side
 # ------------------------------------------------------------------------------------------------
 
@@ -596,7 +731,11 @@ def finish(v, pid, obl, matcher, level, trusted, assumptions, rule, extra=None):
             violations.append("corr")
     if obl["problems"]:
         path = write_replay(pid, n, "proof-obligation", None, "; ".join(obl["problems"]), None, None)
-        print("VIOLATION property=%s replay=%s no-failing-input-found" % (pid, path))
+        if violations and all(x != "corr" for x in violations):
+            # a failing input was found and reported above; the broken obligation is recorded with it
+            log("proof obligations that no longer check are recorded in %s" % path)
+        else:
+            print("VIOLATION property=%s replay=%s no-failing-input-found" % (pid, path))
         violations.append("obligation")
     cov = dict(
         obligations=obl["obligations"], discharged=obl["discharged"],
